@@ -31,7 +31,8 @@ func (vc *VC) builtin(fr *Frame, st *State, x *ssa.Call, name string, args []*Va
 		case *types.Map:
 			_, _, _, card := vc.mapArrays(st, at)
 			l := vc.define("mlen", "Int", ite("(= "+a.S+" 0)", "0", "(select "+card+" "+a.S+")"))
-			vc.assume("(>= " + l + " 0)")
+			// a map holds fewer than 2^56 entries (it has to fit in memory)
+			vc.assume("(and (>= " + l + " 0) (< " + l + " 72057594037927936))")
 			return &Val{T: tInt, S: l}
 		}
 	case "cap":
@@ -119,7 +120,19 @@ func (vc *VC) doAppend(fr *Frame, st *State, x *ssa.Call, args []*Val) *Val {
 	vc.assume(eq(res, ite(inplace,
 		fmt.Sprintf("(mkSlice (sptr %s) (+ %s %s) (scap %s))", s.S, l, n, s.S),
 		fmt.Sprintf("(mkSlice %s (+ %s %s) %s)", np, l, n, newcap))))
-	// appending nothing to nil yields nil
+	// forward form of "the old elements are still there": triggered by reads of the
+	// old heap, it produces the corresponding read of the new heap (in place: same
+	// address; reallocated: moved to the new block)
+	if t.KLen > 0 {
+		vc.assume(fmt.Sprintf("(forall ((a Int)) (! (=> (and (<= (sptr %s) a) (< a (+ (sptr %s) %s))) (= (select %s (ite %s a (+ %s (- a (sptr %s))))) (select %s a))) :pattern ((select %s a))))",
+			s.S, s.S, l, nh, inplace, np, s.S, h, h))
+	}
+	// ground facts about the appended elements (they seed quantifier instantiation)
+	if t.KLen > 0 && t.KLen <= 4 {
+		for i := 0; i < t.KLen; i++ {
+			vc.assume(fmt.Sprintf("(= (select %s (+ (sptr %s) %s %d)) %s)", nh, res, l, i, src(fmt.Sprint(i))))
+		}
+	}
 	return &Val{T: s.T, S: res}
 }
 
